@@ -6,7 +6,7 @@ import re
 
 from ..consteval import ConstEval
 from ..core import AnalysisError, own_nodes, short, unparse
-from ..rules import defs, exa, fmt, lint, nul
+from ..rules import defs, exa, fmt, lint, nul, shape
 from . import common
 
 EXPLANATION = (
@@ -96,6 +96,9 @@ def check_fmt(ctx):
         if vals:
           accepted.setdefault((cur_key, unparse(n.left)), set()).update(vals)
   ctx.floor("FMT", "cue-setting keys read by the WebVTT reader", len(reader_keys), 4)
+  for k in ("vertical", "size", "align", "line", "position"):
+    ctx.check(k in reader_keys, "TAB-settings", f"{reader.qualname}|cue setting `{k}` is read", ctx.where(reader.module, reader.node), "read",
+              f"the WebVTT cue setting `{k}` is never read: cues that use it are laid out as if it were absent")
   ce = ConstEval(ix)
   # writer side: literal "key:" pieces of VttCue.__str__
   writer_keys = {}
@@ -132,6 +135,30 @@ def check_fmt(ctx):
         val = text.split(":", 1)[1]
         ctx.check(re.fullmatch(pct, val) is not None, "FMT", f"ttconv.vtt.cue:VttCue.__str__|line-value|{val}", ctx.where(s_fn.module, n),
                   f"`{val}` matches {pct!r}", f"the writer prints line:{val} which the reader's percentage pattern {pct!r} rejects")
+
+
+def check_time_expression(ctx):
+  ix = ctx.ix
+  f = ix.func("ttconv.vtt.reader:vtt_timestamp_to_secs")
+  rets = [r for r in own_nodes(f.node) if isinstance(r, ast.Return) and r.value is not None and not (isinstance(r.value, ast.Constant) and r.value.value is None)]
+  if len(rets) != 1:
+    raise AnalysisError("vtt_timestamp_to_secs: expected one value return")
+  rows = shape.eval_time_expr(ix, f, rets[0].value, {"h": "hh", "m": "mm", "s": "ss", "ms": "ms"})
+  wrong = [(s, v, w) for s, v, w in rows if v != w]
+  ctx.check(not wrong, "FIN-timeexpr", f"{f.qualname}|seconds = h*3600 + m*60 + s + ms/1000", ctx.where(f.module, rets[0]), f"exact on {len(rows)} sample timestamps",
+            "the timestamp value is not h*3600 + m*60 + s + ms/1000 of the printed fields: " + "; ".join(f"{s}: got {v}, want {w}" for s, v, w in wrong[:2]))
+  # hours are optional: a missing hh group counts as 0
+  from ..consteval import ConstEval
+  from ..rules.isdrules import substitute
+  mapping = {}
+  for n in ast.walk(rets[0].value):
+    if isinstance(n, ast.Call) and isinstance(n.func, ast.Attribute) and n.func.attr == "group" and n.args and isinstance(n.args[0], ast.Constant):
+      mapping[unparse(n)] = "__g_" + str(n.args[0].value)
+  e = substitute(rets[0].value, mapping)
+  v = ConstEval(ix, symbolic_ok=False).try_ev(f.module, e, None, {"__g_hh": None, "__g_mm": "02", "__g_ss": "03", "__g_ms": "004"})
+  from fractions import Fraction
+  ctx.check(v == Fraction(123004, 1000), "FIN-timeexpr", f"{f.qualname}|hours optional", ctx.where(f.module, rets[0]), "mm:ss.ttt without hours is accepted",
+            f"a timestamp without hours evaluates to {v!r} instead of 123.004")
 
 
 RUBY_GUARD = "isinstance(self.parent, model.Ruby)"
@@ -206,3 +233,13 @@ def run(ctx):
   np_ = nul.check_parent_walk(ctx, [ix.cls("ttconv.vtt.reader:_TextCueParser")])
   ctx.floor("NUL-parent", "parent() stores in the WebVTT cue parser", np_, 2)
   check_fmt(ctx)
+  check_time_expression(ctx)
+  shape.check_line_breaks(ctx, ix.func("ttconv.vtt.reader:_TextCueParser._handle_string"))
+  shape.check_span_pairing(ctx, ix.func("ttconv.vtt.reader:_TextCueParser._handle_starttag"), ix.func("ttconv.vtt.reader:_TextCueParser._handle_endtag"))
+  gr = ix.func("ttconv.vtt.reader:_get_or_make_region")
+  shape.check_region_key(ctx, gr)
+  for var in ("writing_mode", "text_align"):
+    shape.check_final_before_use(ctx, gr, var)
+  nt2 = shape.check_state_buffers(ctx, ix.func("ttconv.vtt.tokenizer:CueTextTokenizer"), buffers=("buffer",),
+                                 continuation={("start_tag_annot", "annot_cref"): "buffer", ("annot_cref", "start_tag_annot"): "buffer"})
+  ctx.floor("TYPESTATE-buffer", "state transitions sharing an accumulator", nt2, 2)
